@@ -37,16 +37,22 @@ TSave ==
 (*  - arbitrary bytes: success is legal only if no chunk had to reach beyond the buffer   *)
 (*    (r.why = "format": the implementation was more lenient about a length than the      *)
 (*    wire format - not a safety matter, nothing is demanded of the value);               *)
-(*  - a refusal is illegal when the bytes are exactly the archive of a value.             *)
+(*  - a refusal is illegal when the bytes are exactly the archive of a value;             *)
+(*  - multimap / multiset are sequences (key order, insertion order among equivalent       *)
+(*    keys): the loaded sequence must equal the saved one element by element and saving     *)
+(*    it again must give the same bytes; for arbitrary bytes whose elements are not in      *)
+(*    canonical order the order among equivalent keys is left to the container.             *)
 LoadVerdict ==
     LET r == Load(Ev.type, Ev.bytes, 0)
     IN IF Has(Ev, "orig")
        THEN IF ~Ev.ok THEN <<"roundtrip-refused", Ev.type.k>>
             ELSE IF Ev.value # Ev.orig THEN <<"roundtrip-differs", Ev.type.k>>
             ELSE IF ~r.ok \/ r.v # Ev.orig THEN <<"roundtrip-spec", Ev.type.k>>
+            ELSE IF Has(Ev, "resave") /\ Ev.resave # Ev.bytes THEN <<"roundtrip-resave", Ev.type.k>>
             ELSE <<"ok", "">>
        ELSE IF Ev.ok
-            THEN IF r.ok THEN (IF r.v = Ev.value THEN <<"ok", "">> ELSE <<"load-wrong-value", Ev.type.k>>)
+            THEN IF r.ok THEN (IF r.v = Ev.value \/ (HasBag(Ev.type) /\ Save(Ev.type, r.v) # Ev.bytes) THEN <<"ok", "">>
+                               ELSE <<"load-wrong-value", Ev.type.k>>)
                  ELSE IF r.why \in {"eof", "bounds"} THEN <<"overread", OverClass(r.over)>>
                  ELSE <<"ok", "">>
             ELSE IF r.ok /\ Save(Ev.type, r.v) = Ev.bytes THEN <<"load-refused-valid", Ev.type.k>>
